@@ -179,24 +179,21 @@ class Facts:
         return "%s:%d" % (r["file"], r["line"])
 
     def nice(self, fid):
-        """Stable, line-free display key of a function."""
-        r = self.fns.get(fid)
-        if not r:
+        """Stable, line-free display key of a function: `{impl#N}` segments (which renumber when impls are
+        added) are replaced by the impl header"""
+        if "{impl#" not in fid:
             return fid
-        imp = r.get("impl")
-        base = fid
-        if imp:
-            # replace `{impl#N}` by the impl header
-            tr = imp.get("trait")
-            hdr = ("<%s as %s>" % (imp["self"], tr)) if tr else ("<%s>" % imp["self"])
-            parts = fid.split("::")
-            out = []
-            done = False
-            for p in parts:
-                if p.startswith("{impl#") and not done:
-                    out.append(hdr)
-                    done = True
-                else:
-                    out.append(p)
-            base = "::".join(out)
-        return base
+        if not hasattr(self, "_implhdr"):
+            self._implhdr = {}
+            for r in self.impls:
+                tr = r.get("trait")
+                self._implhdr[r["id"]] = ("<%s as %s>" % (r["self"], tr)) if tr else ("<%s>" % r["self"])
+        parts = fid.split("::")
+        out = []
+        for i, p in enumerate(parts):
+            if p.startswith("{impl#"):
+                iid = "::".join(parts[:i + 1])
+                out.append(self._implhdr.get(iid, p))
+            else:
+                out.append(p)
+        return "::".join(out)
